@@ -18,6 +18,7 @@ import (
 	"reflect"
 	"regexp"
 	"sort"
+	"strings"
 
 	"github.com/benhoyt/goawk/parser"
 )
@@ -31,7 +32,8 @@ type digester struct {
 
 // Digest is a structural digest of everything reachable from the Program:
 // the syntax tree, the resolver's tables (unexported fields included) and the
-// compiled code, constants and regular expressions.  Pointers are replaced by
+// compiled code, constants and regular expressions (with their state: see
+// regex).  Pointers are replaced by
 // the order of first visit, map entries are sorted, so that two Programs
 // built from the same source by a deterministic parser have the same digest
 // and any write into a Program changes it.
@@ -42,6 +44,75 @@ func Digest(p *parser.Program) string {
 }
 
 func (d *digester) str(s string) { fmt.Fprintf(d.h, "%d:%s;", len(s), s) }
+
+// regex digests the state of a compiled regular expression: what the regexp
+// API lets a user observe (source, number and names of the groups, literal
+// prefix, and -- by matching a probe -- whether it prefers the leftmost-longest
+// match), and the object's own scalar fields (the flag Longest() sets is one
+// of them); the matcher's program is Go's and a function of the source.
+func (d *digester) regex(v reflect.Value) {
+	if v.CanInterface() {
+		d.str(RegexState(v.Interface().(*regexp.Regexp)))
+	} else {
+		d.str("re?")
+	}
+	e := v.Elem()
+	t := e.Type()
+	for i := 0; i < e.NumField(); i++ {
+		f := e.Field(i)
+		switch f.Kind() {
+		case reflect.Bool:
+			d.str(fmt.Sprint(t.Field(i).Name, "=", f.Bool()))
+		case reflect.Int, reflect.Int8, reflect.Int16, reflect.Int32, reflect.Int64:
+			d.str(fmt.Sprint(t.Field(i).Name, "=", f.Int()))
+		case reflect.Uint, reflect.Uint8, reflect.Uint16, reflect.Uint32, reflect.Uint64:
+			d.str(fmt.Sprint(t.Field(i).Name, "=", f.Uint()))
+		case reflect.String:
+			d.str(t.Field(i).Name + "=" + f.String())
+		}
+	}
+}
+
+// longestProbes: for a source S, the regular expression (?:S)|(?:S)x has the
+// same first alternative as S; what distinguishes leftmost-first from
+// leftmost-longest through the API is matching a text on which two
+// alternatives of the SAME object match with different lengths.  For an
+// arbitrary object that text is not known, so the probes are texts that
+// separate the two disciplines for the alternations the harness generates
+// (a|ab, 1|10, x|xy ...): every 2- and 3-letter word over the letters that
+// occur in the source.
+func longestProbes(src string) []string {
+	seen := map[byte]bool{}
+	var letters []byte
+	for i := 0; i < len(src) && len(letters) < 4; i++ {
+		c := src[i]
+		if (c >= 'a' && c <= 'z' || c >= '0' && c <= '9') && !seen[c] {
+			seen[c] = true
+			letters = append(letters, c)
+		}
+	}
+	var out []string
+	for _, a := range letters {
+		for _, b := range letters {
+			out = append(out, string([]byte{a, b}))
+			for _, c := range letters {
+				out = append(out, string([]byte{a, b, c}))
+			}
+		}
+	}
+	return out
+}
+
+// RegexState renders what the regexp API shows of re.
+func RegexState(re *regexp.Regexp) string {
+	var sb strings.Builder
+	prefix, complete := re.LiteralPrefix()
+	fmt.Fprintf(&sb, "re %q subexp=%d names=%q prefix=%q/%v", re.String(), re.NumSubexp(), re.SubexpNames(), prefix, complete)
+	for _, probe := range longestProbes(re.String()) {
+		fmt.Fprintf(&sb, " %s>%q", probe, re.FindString(probe))
+	}
+	return sb.String()
+}
 
 func (d *digester) walk(v reflect.Value, depth int) {
 	if depth > 200 {
@@ -74,12 +145,7 @@ func (d *digester) walk(v reflect.Value, depth int) {
 		}
 		d.seen[v.Pointer()] = len(d.seen)
 		if v.Type() == regexpType {
-			// a compiled regular expression: its source (the matcher's internals are Go's)
-			if v.CanInterface() {
-				d.str("re" + v.Interface().(*regexp.Regexp).String())
-			} else {
-				d.str("re?")
-			}
+			d.regex(v)
 			return
 		}
 		d.str("ptr")
